@@ -23,4 +23,7 @@ def run(tier, seed, only=None):
             ['c18_o2_last_message_is_max', 'c18_o2_last_message_none_takes'],
             ['mdk_storage_traits::groups::types::Group::update_last_message_if_newer'],
             {'timestamps': 'all u64', 'ids': 'two symbolic bytes (first, last) + 30 fixed bytes', 'unwind': 34}))
+    if not only or 'O3' in only:
+        from props import memobs
+        out.append(memobs.messages_listing(tier, 'O3', 'O3'))
     return out
